@@ -319,6 +319,7 @@ def run(tier="quick", seed=0, jobs=16):
     from props import C11 as c11
 
     c11.bounded(rep, "quick")
+    c11.dispatch_contract(rep)  # ... and the factory really calls the kernel of the requested kind on (source, group id)
     # IN: the classification above treats group-suffixed INPUT columns as constant within the unit;
     # that is what the real input check guarantees -- for every grouping, not only hh
     import pandas as pd
